@@ -37,6 +37,9 @@ type C15Scenario struct {
 	Procs       []C15Proc `json:"procs"`
 	PreExisting bool      `json:"pre_existing"` // a complete result of an earlier query already at the path
 	Groups      int       `json:"groups"`
+	// Symlink: the outfile path is a symbolic link (latest.csv -> dated/result.csv),
+	// to the earlier result if there is one, dangling otherwise
+	Symlink bool `json:"symlink,omitempty"`
 }
 
 const c15Header = "g,count(n),sum(n)"
@@ -46,6 +49,7 @@ func c15Gen(r *Rand, tier string, i int) Scenario {
 	sc.Sched = GenSched(r)
 	sc.Groups = PickOf(r, 1, 3, 5)
 	sc.PreExisting = r.Bool(0.3)
+	sc.Symlink = r.Bool(0.1)
 	n := PickOf(r, 1, 1, 2, 2, 3, 4)
 	allAppend := r.Bool(0.35)
 	for k := 0; k < n; k++ {
@@ -211,6 +215,12 @@ func c15Run(t *testing.T, s Scenario, src verifsim.DecisionSource, keep bool) *R
 		}}
 	res.Outcome = RunSim(t, opts, func(w *World) {
 		outPath = w.Dir + "/result.csv"
+		target := outPath
+		if sc.Symlink {
+			must(os.MkdirAll(w.Dir+"/dated", 0755))
+			must(os.Symlink("dated/result.csv", outPath))
+			target = w.Dir + "/dated/result.csv"
+		}
 		if sc.PreExisting {
 			// a complete result of an earlier (different) run
 			var b bytes.Buffer
@@ -218,7 +228,7 @@ func c15Run(t *testing.T, s Scenario, src verifsim.DecisionSource, keep bool) *R
 			for r := range sc.rows(7) {
 				b.WriteString(r + "\n")
 			}
-			must(os.WriteFile(outPath, b.Bytes(), 0644))
+			must(os.WriteFile(target, b.Bytes(), 0644))
 			must(os.WriteFile(outPath+".query", []byte("select g,count(n),sum(n) group by g logformat generickv outfile "+outPath), 0644))
 		}
 		for pi, p := range sc.Procs {
@@ -322,7 +332,7 @@ func c15Shape(s Scenario) string {
 		ps = append(ps, fmt.Sprintf("a%v/n%v/k%d/l%d/s%d/d%d", p.Append, p.NonCumul, p.KillAt, p.Lines, p.StallMs, p.DiskFullAt))
 	}
 	sort.Strings(nil)
-	return fmt.Sprintf("pre%v/g%d/%s", sc.PreExisting, sc.Groups, strings.Join(ps, ";"))
+	return fmt.Sprintf("pre%v/link%v/g%d/%s", sc.PreExisting, sc.Symlink, sc.Groups, strings.Join(ps, ";"))
 }
 
 func c15Sample(s Scenario) any {
